@@ -22,6 +22,7 @@ type Event struct {
 }
 
 type Tracker struct {
+	off      bool // disabled: no hooks, no locking (the race-detector pass: the tracker's mutex would order the accesses it is looking for)
 	mu       sync.Mutex
 	ids      map[*pool.Message]int
 	log      []Event
@@ -50,6 +51,9 @@ func init() {
 		t.onHook(ev, m)
 	}
 }
+
+// StartOff returns a tracker that does nothing (and installs nothing).
+func StartOff() *Tracker { return &Tracker{off: true} }
 
 // Start installs a fresh tracker (one at a time).
 func Start() *Tracker {
@@ -120,6 +124,9 @@ func (t *Tracker) onHook(ev string, m *pool.Message) {
 
 // Hold marks the start of a period in which the application holds m.
 func (t *Tracker) Hold(m *pool.Message) {
+	if t.off {
+		return
+	}
 	t.mu.Lock()
 	t.add(m, "hold")
 	t.snaps[m] = Snapshot(m)
@@ -128,6 +135,9 @@ func (t *Tracker) Hold(m *pool.Message) {
 
 // Check compares the held message with its snapshot (content must not change while the application holds it).
 func (t *Tracker) Check(m *pool.Message) {
+	if t.off {
+		return
+	}
 	t.mu.Lock()
 	if s, ok := t.snaps[m]; ok && !t.released[m] && !bytes.Equal(s, Snapshot(m)) {
 		t.add(m, "changedHeld")
@@ -137,6 +147,9 @@ func (t *Tracker) Check(m *pool.Message) {
 
 // Unhold ends a hold without releasing (a handler / callback returned).
 func (t *Tracker) Unhold(m *pool.Message) {
+	if t.off {
+		return
+	}
 	t.Check(m)
 	t.mu.Lock()
 	t.add(m, "unhold")
@@ -146,6 +159,9 @@ func (t *Tracker) Unhold(m *pool.Message) {
 
 // AppRelease announces that the application itself is about to release m.
 func (t *Tracker) AppRelease(m *pool.Message) {
+	if t.off {
+		return
+	}
 	t.Check(m)
 	t.mu.Lock()
 	t.appRel[m] = true
@@ -156,6 +172,9 @@ func (t *Tracker) AppRelease(m *pool.Message) {
 // every released message is compared with the snapshot taken when it was released: a difference is a write
 // after release.
 func (t *Tracker) Finish(quarantine bool) []Event {
+	if t.off {
+		return []Event{}
+	}
 	t.mu.Lock()
 	defer t.mu.Unlock()
 	for m := range t.released {
